@@ -15,7 +15,7 @@ TRANSFORMS = [
     "`const fn` -> `fn` (Verus const fn support is partial)",
     "return type `-> T` rewritten to `-> (name: T)` when the contract names the result",
     "function renamed only when the template asks for it with `as <name>` (used to place two cfg arms side by side)",
-    "`debug_assert!(e);` -> `assert(e);` (same obligation, Verus spelling) when option debug_assert=verus is given",
+    "`debug_assert!(e);` and `assert!(e);` -> `assert(e);` (Verus spelling: the run-time check becomes the proof obligation that the panic is unreachable under the contract's precondition)",
     "items (struct/const/type): attributes dropped except that `#[derive(.. Clone, Copy ..)]` is re-emitted as `#[derive(Clone, Copy)]`, visibility normalised to `pub`; with option `limbs`, a const initialised by `T::w64be(l3,l2,l1,l0)` / `T::w64le(l0,l1,l2,l3)` with four literal limbs is rewritten to the tuple-struct literal `GF255([l0,l1,l2,l3])` (w64be/w64le are proved in the same unit to build exactly that array)",
     "anonymous loop pattern: `for _ in <range>` -> `for vloop<k> in <range>` (k-th such loop of the function) so that a loop invariant can name the counter",
     "only with option `revloops=<T>` (this Verus has no specification for Rev<Range>): `for v in (a..b).rev() {` -> `let mut vrev<k>: T = b; while vrev<k> > a { vrev<k> = vrev<k> - 1; let v = vrev<k>;` (k-th such loop; a, b are the literal or identifier bounds as written; the loop body is unchanged; same iteration sequence b-1, b-2, .., a)",
@@ -481,6 +481,7 @@ def normalise_fn(fn_src, cfg, rename=None, ret_name=None, debug_assert_verus=Tru
         s = s[:ty_s] + "(" + ret_name + ": " + s[ty_s:ty_e] + ")" + s[ty_e:]
     if debug_assert_verus:
         s = re.sub(r'\bdebug_assert!\(', 'assert(', s)
+        s = re.sub(r'\bassert!\(', 'assert(', s)
     cnt = [0]
     def _nm(m):
         cnt[0] += 1
@@ -532,7 +533,7 @@ def source_tokens(fn_src, cfg, rename=None, ret_name=None, debug_assert_verus=Tr
             k += 1
         toks = toks[:arrow + 1] + ['(', ret_name, ':'] + toks[arrow + 1:k] + [')'] + toks[k:]
     if debug_assert_verus:
-        toks = ['assert' if t == 'debug_assert!' else t for t in toks]
+        toks = ['assert' if t in ('debug_assert!', 'assert!') else t for t in toks]
     k = 0
     for i in range(len(toks) - 2):
         if toks[i] == 'for' and toks[i + 1] == '_' and toks[i + 2] == 'in':
